@@ -8,9 +8,10 @@ corr   : (a) the real helpers `normalize_chunks`, `get_item`, `split_chunksizes`
              model on generated numbers;
          (b) end-to-end traces: for every task of every operation, the chunk keys it `set` (and which of them it
              read first) vs the model's `taskWrites stored write coords`; stored grid of every rechunk stage vs
-             `splitChunksizes` / `regular`; region stores: alignment verdict, task list and well-formedness vs the
-             model's `RegionAxis`; validates the planner hypothesis of C05_rechunk_regular_single_writer on every
-             real regular plan.
+             `splitChunksizes` / `regular`; region stores: acceptance verdict (steps, `slice.indices`, alignment),
+             task list and well-formedness vs the model's `regionAccept` / `RegionAxis.effective`; stores into
+             existing arrays: `storeGuard` vs "a rechunk was inserted"; validates the planner hypotheses of
+             C05_rechunk_regular_single_writer and C05_store_single_writer_holds on every real plan.
 oracle : independent of Lean, on the same traces: every chunk key of the grid of every produced array is `set`
          by exactly one task, once, with no prior `get` by that task, nothing else is set, the computation does
          not die mid-run; region/store targets hold the source values inside and the sentinel outside.
@@ -26,19 +27,18 @@ RULE = ("programs: elementwise/reduction chains (<=3 ops, 1-3 dims, sizes<=20, o
         "(unstack, qr), rechunks (1-3 dims, sizes<=40, both planners, budgets 6x..1000x the largest chunk and explicit "
         "min_mem to force 1-4 stages), stores into new / existing arrays of equal, coarser, finer and sharded chunking "
         "(lazy and materialised sources, store and to_zarr), region stores (aligned / unaligned regions, equal and "
-        "different source chunking, None bounds); task order forward/reverse/shuffled.  non-trivial = more than one "
+        "different source chunking, None / negative / beyond-the-end bounds, steps None/1/2/3/-1); task order forward/reverse/shuffled.  non-trivial = more than one "
         "task writes the array or a task writes more than one stored chunk; distinct by case description. "
         "numeric: n<=200, chunk sizes<=n+5, grids of <=3 axes with <=8 chunks")
 ASSUMPTIONS = [
     "zarr-python turns a region write that covers a stored chunk (or shard) entirely into one `set` with no prior `get`, and a partial one into get-modify-set (observed on every trace: model 'whole' <=> no get-before-set)",
     "planner invariant used by C05_rechunk_regular_single_writer (copy chunk multiple of the stored chunk or spanning the axis) — validated on every real regular plan generated; proved for `_fix_copy_chunks`, the remaining stages belong to C14",
-    "arrays with a zero-length axis are excluded (rechunk/store return early or write nothing)",
+    "planner invariant used by C05_store_single_writer_holds (final copy chunks of the rechunk that _store_array inserts are multiples of the target chunks or span the axis: consolidate_chunks, C14) — validated on every traced store that inserts a rechunk",
+    "arrays with a zero-length axis and empty regions are excluded (rechunk/store return early or write nothing)",
 ]
 TRUSTED = ["modelled not verified: zarr's chunk decomposition of a slice write (SliceDimIndexer / is_complete_chunk), validated by the trace correspondence",
            "harness/writetrace.py: sequential executor with a process-global current-task marker (exact attribution because nothing runs concurrently)"]
 
-KEY_STORE = "store-existing-chunks-differ"
-KEY_REGION = "region-store-source-chunks-differ"
 
 
 # ---------------------------------------------------------------------------------------------------
@@ -176,11 +176,22 @@ def gen_store(rng):
     return case
 
 
+def raw_slice(rng, a, b, n):
+    """a raw slice request that `slice.indices(n)` normalizes to [a, b) — None / negative / beyond-the-end bounds"""
+    r = rng.random()
+    start = None if (a == 0 and r < 0.3) else (a - n if (a > 0 and r < 0.45) or (a == 0 and r < 0.4) else a)
+    r = rng.random()
+    stop = None if (b == n and r < 0.3) else (b - n if (b < n and r < 0.3) else (n + rng.randint(1, 5) if (b == n and r < 0.45) else b))
+    r = rng.random()
+    step = None if r < 0.82 else 1 if r < 0.93 else rng.choice([2, 3, -1])
+    return [start, stop, step]
+
+
 def gen_region(rng):
     nd = rng.choice([1, 1, 2])
     tchunks = [rng.randint(1, 6) for _ in range(nd)]
     tshape = [rng.randint(c, 4 * c + 3) for c in tchunks]
-    region, none_lo, none_hi = [], [], []
+    region = []
     aligned = rng.random() < 0.8
     for n, c in zip(tshape, tchunks):
         nch = -(-n // c)
@@ -192,25 +203,37 @@ def gen_region(rng):
             a = rng.randrange(n)
             b = rng.randint(a + 1, n)
         region.append([a, b])
-        none_lo.append(a == 0 and rng.random() < 0.3)
-        none_hi.append(b == n and rng.random() < 0.3)
     src = []
     for (a, b), c in zip(region, tchunks):
-        src.append(c if rng.random() < 0.75 else rng.randint(1, b - a + 1))
-    return {"kind": "region", "tshape": tshape, "tchunks": tchunks, "region": region, "none_lo": none_lo, "none_hi": none_hi,
+        src.append(c if rng.random() < 0.6 else rng.randint(1, b - a + 1))
+    slices = [raw_slice(rng, a, b, n) for (a, b), n in zip(region, tshape)]
+    return {"kind": "region", "tshape": tshape, "tchunks": tchunks, "region": region, "slices": slices,
             "src": src, "api": rng.choice(["store", "to_zarr"]), "lazy": rng.random() < 0.5, "shards": None}
 
 
 GENS = {"chain": gen_chain, "multi": gen_multi, "rechunk": gen_rechunk, "store": gen_store, "region": gen_region}
 WEIGHTS = {"chain": 18, "multi": 8, "rechunk": 36, "store": 18, "region": 20}
 
-# witnesses of the `_fails` theorems (Properties/C05.lean: storeWitness, regionWitness) and a few fixed healthy programs
+# regression cases that must hold: the triggers of the two defects repaired by d416aac / ba97b91 (Properties/C05.lean:
+# storeWitness / storeRegression, regionWitness) and relatives, plus a few fixed healthy programs
 FIXED = [
     {"kind": "store", "shape": [4, 4], "src": [1, 1], "tgt": [4, 4], "lazy": False, "api": "store", "existing": True, "shards": None},
-    {"kind": "region", "tshape": [16], "tchunks": [4], "region": [[0, 8]], "none_lo": [False], "none_hi": [False], "src": [8],
+    {"kind": "store", "shape": [8, 4], "src": [8, 3], "tgt": [3, 2], "lazy": True, "api": "store", "existing": True, "shards": None},
+    {"kind": "store", "shape": [2, 4], "src": [1, 1], "tgt": [2, 4], "lazy": True, "api": "to_zarr", "existing": True, "shards": None},
+    {"kind": "region", "tshape": [16], "tchunks": [4], "region": [[0, 8]], "slices": [[0, 8, None]], "src": [8],
+     "api": "store", "lazy": False, "shards": None},
+    {"kind": "region", "tshape": [16], "tchunks": [4], "region": [[0, 16]], "slices": [[0, 16, None]], "src": [8],
+     "api": "store", "lazy": False, "shards": None},
+    {"kind": "region", "tshape": [10], "tchunks": [4], "region": [[0, 8]], "slices": [[None, -2, None]], "src": [7],
+     "api": "store", "lazy": False, "shards": None},
+    {"kind": "region", "tshape": [16], "tchunks": [4], "region": [[4, 12]], "slices": [[4, 12, None]], "src": [2],
+     "api": "to_zarr", "lazy": True, "shards": None},
+    {"kind": "region", "tshape": [11], "tchunks": [6], "region": [[0, 11]], "slices": [[None, None, None]], "src": [3],
+     "api": "to_zarr", "lazy": False, "shards": None},
+    {"kind": "region", "tshape": [16], "tchunks": [4], "region": [[0, 8]], "slices": [[0, 8, 2]], "src": [4],
      "api": "store", "lazy": False, "shards": None},
     {"kind": "store", "shape": [16], "src": [4], "tgt": [2], "lazy": True, "api": "to_zarr", "existing": True, "shards": [8]},
-    {"kind": "region", "tshape": [10], "tchunks": [4], "region": [[4, 10]], "none_lo": [False], "none_hi": [True], "src": [4],
+    {"kind": "region", "tshape": [10], "tchunks": [4], "region": [[4, 10]], "slices": [[4, None, None]], "src": [4],
      "api": "to_zarr", "lazy": False, "shards": None},
     {"kind": "rechunk", "shape": [40, 30], "src": [40, 1], "tgt": [1, 30], "irregular": True, "allowed_mem": 4000, "pre": False, "min_mem": None},
     {"kind": "rechunk", "shape": [40, 30], "src": [40, 1], "tgt": [1, 30], "irregular": False, "allowed_mem": 4000, "pre": False, "min_mem": None},
@@ -338,8 +361,7 @@ def run_case(case):
                                       shards=tuple(case["shards"]) if case["shards"] else None, name="tgt", fill_value=-1.0)
                 wt.TRACE.on = True
                 run.target_arr = ("T", z.path)
-                region = tuple(slice(None if nl else lo, None if nh else hi)
-                               for (lo, hi), nl, nh in zip(case["region"], case["none_lo"], case["none_hi"]))
+                region = tuple(slice(*sl) for sl in case["slices"])
                 if case["api"] == "store":
                     cubed.store(a, z, regions=region, executor=ex)
                 else:
@@ -417,7 +439,8 @@ def _apply_chain_op(xp, a, op):
 
 
 # ---------------------------------------------------------------------------------------------------
-# classifiers for the known genuine defects (call site + triggering condition on the case)
+# no known defects are left for this property: both former findings are fixed in /repo (d416aac, ba97b91), so every
+# oracle failure is unclassified (a VIOLATION)
 # ---------------------------------------------------------------------------------------------------
 
 def as_store(case):
@@ -425,41 +448,13 @@ def as_store(case):
     `_store_array` treats as no region at all)"""
     if case["kind"] == "store":
         return case
-    if case["kind"] == "region" and all(case["none_lo"]) and all(case["none_hi"]):
+    if case["kind"] == "region" and all(sl == [None, None, None] for sl in case["slices"]):
         return {"kind": "store", "shape": case["tshape"], "src": case["src"], "tgt": case["tchunks"], "existing": True,
                 "shards": case.get("shards")}
     return None
 
 
-def store_mismatch(case):
-    """`_store_array`, no region, existing target: some source-chunk region is not a union of whole stored chunks."""
-    st = as_store(case)
-    if st is None or not st.get("existing") or st.get("shards"):
-        return False
-    return any(not (s % t == 0 or s >= n) for n, s, t in zip(st["shape"], st["src"], st["tgt"]))
-
-
-def region_mismatch(case):
-    """`_store_array`, region branch, region accepted by the alignment test: the source grid differs from the target
-    grid restricted to the region on some axis (source chunks != target chunks and not a single block of both)."""
-    if case["kind"] != "region" or as_store(case) is not None:
-        return False
-    src = case["shards"] if case.get("shards") else case["src"]   # a sharded target first rechunks the source to the shards
-    bad = False
-    for (a, b), n, ct, cs in zip(case["region"], case["tshape"], case["tchunks"], src):
-        if a % ct != 0 or not (b % ct == 0 or b == n):
-            return False      # unaligned: must be refused up front, never classified
-        tg = [min((j + 1) * ct, b) - max(j * ct, a) for j in range(a // ct, -(-b // ct))]
-        if py_regular(b - a, cs) != tg:
-            bad = True
-    return bad
-
-
 def classify(case, what):
-    if store_mismatch(case) and what in ("several-writers", "partial-write"):
-        return KEY_STORE
-    if region_mismatch(case) and what in ("crash", "values", "never-written", "several-writers", "partial-write"):
-        return KEY_REGION
     return None
 
 
@@ -617,6 +612,15 @@ def corr_numeric(ctx):
         exp.append(e)
         rel.append("getItemN = get_item")
         cases.append({"grids": grids, "idx": idx})
+    for i in range(n_each // 2):
+        n = rng.randint(0, 30)
+        a = rng.choice([None, rng.randint(-n - 5, n + 5)])
+        b = rng.choice([None, rng.randint(-n - 5, n + 5)])
+        lo, hi = slice(a, b).indices(n)[:2]
+        reqs.append("slice|%d|%s|%s" % (n, "N" if a is None else a, "N" if b is None else b))
+        exp.append("%d:%d" % (lo, hi))
+        rel.append("sliceIndices = slice.indices")
+        cases.append({"n": n, "start": a, "stop": b})
     ans = ctx.lean.drive(DRIVER, reqs)
     for rq, e, a, r, c in zip(reqs, exp, ans, rel, cases):
         ctx.count({"numeric": rq}, nontrivial=True, kind="numeric:" + rq.split("|")[0])
@@ -677,33 +681,58 @@ def corr_traces(ctx, runs):
                     if tuple(out["wchunks"]) != tuple(min(c, n) for c, n in zip(copy, out["shape"])):
                         ctx.disagree("write proxy chunks of a rechunk stage = its copy chunks", {"case": case},
                                      list(copy), list(out["wchunks"]))
-    # (3) region stores: alignment verdict, task list, well-formedness (all region runs, also refused / crashed ones)
+    # (3) region stores: acceptance verdict (step / normalized bounds / alignment), task list, well-formedness
+    #     (all region runs, also refused / crashed ones)
+    def opt(v):
+        return "N" if v is None else str(int(v))
     for run in runs:
         case = run.case
         if case["kind"] != "region" or case.get("shards") or as_store(case) is not None:
             continue
-        axes = ";".join("%d,%d,%d,%d,%d" % (n, ct, a, b, cs) for n, ct, (a, b), cs in
-                        zip(case["tshape"], case["tchunks"], case["region"], case["src"]))
-        refused_align = run.status.startswith("refused") and "does not align" in run.status
-        if run.status.startswith("refused") and not refused_align:
+        axes = ";".join("%d,%d,%s,%s,%s,%d" % (n, ct, opt(sl[0]), opt(sl[1]), opt(sl[2]), cs) for n, ct, sl, cs in
+                        zip(case["tshape"], case["tchunks"], case["slices"], case["src"]))
+        refused_region = run.status.startswith("refused:ValueError: Region")
+        if run.status.startswith("refused") and not refused_region:
             continue
         tasks = "-"
         for op in run.ops:
             if any(o["arr"] == run.target_arr for o in op["outputs"]):
                 tasks = ";".join(nats(t) for t in sorted(op["tasks"])) or "-"
-        if refused_align:
-            e = "aligned=false"
+        if refused_region:
+            e = "refused"
         else:
             ok = run.status == "ok" and run.values_ok is True
-            e = "aligned=true tasks=%s ok=%s" % (tasks, "true" if ok else "false")
-        reqs.append("region|" + axes)
+            e = "accepted %s tasks=%s ok=%s" % (",".join("%d:%d" % (a, b) for a, b in case["region"]), tasks, "true" if ok else "false")
+        reqs.append("region2|" + axes)
         exp.append(e)
-        rel.append("RegionAxis.aligned / regionTasks / regionTaskOK = _store_array region branch")
+        rel.append("regionAccept / regionTasks / regionTaskOK∘effective = _store_array region branch")
         cases.append({"case": case, "status": run.status})
+    # (4) stores into existing unsharded arrays: the guard decides whether a rechunk is inserted; the tasks that write
+    #     the user's array use the source chunks (guard passes) or copy chunks that satisfy the planner invariant
+    for run in runs:
+        case = run.case
+        st = as_store(case)
+        if st is None or not st.get("existing") or st.get("shards") or run.status != "ok":
+            continue
+        writer = [(op, o) for op in run.ops for o in op["outputs"] if o["arr"] == run.target_arr]
+        if len(writer) != 1:
+            ctx.disagree("exactly one operation writes the user's target", {"case": case}, 1, len(writer))
+            continue
+        op, out = writer[0]
+        reqs.append("store|" + ";".join("%d,%d,%d" % (n, sc, tc) for n, sc, tc in zip(st["shape"], st["src"], st["tgt"])))
+        exp.append("guard=%s" % ("false" if op["op_name"] == "rechunk" else "true"))
+        rel.append("storeGuard = guard of _store_array (a rechunk is inserted iff it fails)")
+        cases.append({"case": case, "writer": op["op_name"], "wchunks": list(out["wchunks"])})
+        if op["op_name"] == "rechunk":
+            if not all(isinstance(c, int) and (c % t == 0 or c >= n) for n, c, t in zip(st["shape"], out["wchunks"], st["tgt"])):
+                ctx.disagree("planner invariant (hplan of C05_store_single_writer_holds): final copy chunks of the inserted rechunk are multiples of the target chunks or span the axis",
+                             {"case": case, "wchunks": list(out["wchunks"])}, "holds", "violated")
+        elif tuple(out["wchunks"]) != tuple(min(c, n) for c, n in zip(st["src"], st["shape"])):
+            ctx.disagree("write proxy chunks of an aligned store = source chunks", {"case": case}, list(st["src"]), list(out["wchunks"]))
     ans = ctx.lean.drive(DRIVER, reqs)
     for rq, e, a, r, c in zip(reqs, exp, ans, rel, cases):
-        if rq.startswith("region|") and e == "aligned=false":
-            a = a.split(" ")[0]
+        if rq.startswith("region2|"):
+            a = a.split(" okold=")[0]
         if e != a:
             ctx.disagree(r, dict(c, request=rq), a, e)
         ctx.count({"trace": rq, "impl": e}, nontrivial=(";" in e), kind="trace:" + rq.split("|")[0])
